@@ -357,6 +357,10 @@ def finish(ctx, spec):
         json.dump(ev, f, indent=1, default=str)
     for cl, (k, hs) in listed.items():
         log("KNOWN-FINDING: property=%s %s (%d reproductions this run; classifier %s)" % (ctx.pid, k["what"], len(hs), cl))
+    for k in known:  # every listed finding gets its line, also when this run's sampling did not land on it
+        if k.get("classifier") not in listed:
+            log("KNOWN-FINDING: property=%s %s (listed; 0 reproductions this run: its witness was not sampled; classifier %s)"
+                % (ctx.pid, k["what"], k.get("classifier")))
     if code:
         rel = os.path.relpath(replay, OUT)
         if unlisted:
